@@ -31,7 +31,8 @@ from harness.tlc import printed_tuples, run_tlc
 WORKERS = int(os.environ.get("VERIF_TLC_WORKERS", "16"))
 INVS = ["InvSymmetric", "InvFullMatrix", "InvMaskedMatrix", "InvDirect", "InvQueryInside", "InvStepMatrix"]
 TICK_NS = 10          # one model tick = 10 ns
-T_TICKS = [0, 2, 4, 6]
+T_REGULAR = [0, 2, 4, 6]
+T_IRREGULAR = [0, 1, 2, 4, 5, 6]     # off-grid evaluation times at 10 ns (before every SLM end) and 50 ns (after it unless the mask lasts to the end)
 
 
 def cfg_text(n: int, scn: str, variant: str, log: bool) -> str:
@@ -112,6 +113,7 @@ def realise(sc: dict, rng) -> dict | None:
     else:
         spec["pulses"] = [e * TICK_NS, 60 - e * TICK_NS]
     spec["dt"] = 20.0
+    spec["eval"] = sorted({t / 6 for t in sc["T"] if t % 2 == 1} | {1.0})   # off-grid target times come from evaluation times
     spec["slm_end"] = float(e * TICK_NS)
     return spec
 
@@ -178,7 +180,7 @@ def imat_case(spec: dict) -> dict:
         kw: dict[str, Any] = {}
         if spec["custom"] is not None:
             kw["interaction_matrix"] = np.array(spec["custom"])
-        obs = [Occupation(evaluation_times=[1.0])]
+        obs = [Occupation(evaluation_times=spec.get("eval", [1.0]))]
         with warnings.catch_warnings():
             warnings.simplefilter("ignore")
             if spec["backend"] == "sv":
@@ -372,7 +374,7 @@ class Reporter:
 
 
 def sc_key(sc: dict) -> str:
-    return json.dumps([sc["N"], sc["custom"], sc["htype"], sorted((list(k), v) for k, v in sc["cls"].items()), sorted(sc["mask"]), sc["slmEnd"], sc["backend"]])
+    return json.dumps([sc["N"], sc["custom"], sc["htype"], sorted((list(k), v) for k, v in sc["cls"].items()), sorted(sc["mask"]), sc["slmEnd"], sc["backend"], list(sc["T"])])
 
 
 def run(ctx: Ctx) -> None:
@@ -398,15 +400,15 @@ def run(ctx: Ctx) -> None:
         ctx.notes.append(f"actions never taken: {zero}")
     model: dict[str, dict] = {}
     for t in printed_tuples(r["out"], "I"):
-        _, custom, htype, cls, mask, slm_end, backend, k, tq2, used, efull, emasked = t
+        _, custom, htype, cls, mask, slm_end, backend, tt, k, tq2, used, efull, emasked = t
         clsd = {tuple(json.loads(kk)): v for kk, v in cls["__fn__"].items()}
-        sc = {"N": 3, "custom": custom, "htype": htype, "cls": clsd, "mask": set(mask["__set__"]), "slmEnd": slm_end, "backend": backend}
+        sc = {"N": 3, "custom": custom, "htype": htype, "cls": clsd, "mask": set(mask["__set__"]), "slmEnd": slm_end, "backend": backend, "T": list(tt)}
         key = sc_key(sc)
         m = model.setdefault(key, {"sc": sc, "steps": {}})
         m["steps"][k] = (tq2, used)
         m["efull"] = {tuple(json.loads(kk)): tuple(v) for kk, v in efull["__fn__"].items()}
         m["emasked"] = {tuple(json.loads(kk)): tuple(v) for kk, v in emasked["__fn__"].items()}
-    if len(model) < 3000:
+    if len(model) < 6000:
         raise MachineryError(f"only {len(model)} scenarios printed by TLC")
     for m in model.values():   # the python twin of the requirement operators must agree with TLC
         if exp_full(m["sc"]) != m["efull"] or exp_masked(m["sc"]) != m["emasked"]:
@@ -469,7 +471,7 @@ def run(ctx: Ctx) -> None:
             cls = {u: ("below" if U[u[0] - 1][u[1] - 1] <= thr else "above") for u in up}
         mask = set(a for a in range(1, 5) if rng.random() < 0.4)
         sc = {"N": 4, "custom": custom, "htype": htype, "cls": cls, "mask": mask, "slmEnd": rng.choice([2, 3, 6]) if mask else 0,
-              "backend": "sv" if rng.random() < 0.75 else "mps", "coords": coords}
+              "backend": "sv" if rng.random() < 0.75 else "mps", "coords": coords, "T": rng.choice([T_REGULAR, T_IRREGULAR])}
         cases.append((sc, realise(sc, rng), None))
     for i, (sc, sp, kk) in enumerate(cases):
         sp["id"] = i + 1
@@ -481,6 +483,7 @@ def run(ctx: Ctx) -> None:
     drift_steps = 0
     undecided_runs: dict[str, int] = {}
     sv_refuses_xy = 0
+    tq_outside = 0
     margins = 0.0
     for (sc, spec, kk), res in zip(cases, results):
         if "invalid" in res:
@@ -498,8 +501,8 @@ def run(ctx: Ctx) -> None:
             if abs(res["slm_end_code"] - e_ns) > 0:
                 # the SLM end the code works with differs from Pulser's schedule
                 rep.violation("slm-end-time-wrong", f"PulserData.slm_end_time = {res['slm_end_code']} but the mask ends at {e_ns}", {"scenario": pub})
-            if res["T"] != [float(t * TICK_NS) for t in T_TICKS]:
-                ctx.notes.append(f"unexpected target times {res['T']}")
+            if len(res["T"]) != len(sc["T"]) or any(abs(x - t * TICK_NS) > 1e-9 for x, t in zip(res["T"], sc["T"])):
+                raise MachineryError(f"the scenario was meant to have target times {[t * TICK_NS for t in sc['T']]}, the real ones are {res['T']} (C21 decides the grid)")
             if res["direct"] != res["direct_again"]:
                 rep.violation("direct:query-not-repeatable", "two identical queries of SequenceData.interaction_matrix return different matrices", {"scenario": pub})
             for t, got in res["direct"]:
@@ -529,17 +532,20 @@ def run(ctx: Ctx) -> None:
                 undecided_runs[res["raises"][:80]] = undecided_runs.get(res["raises"][:80], 0) + 1
             continue
         steps = res["steps"]
-        if len(steps) != len(T_TICKS) - 1:
+        tns = [float(t * TICK_NS) for t in sc["T"]]
+        if len(steps) != len(tns) - 1:
             raise MachineryError(f"{len(steps)} steps recorded for {pub} (hooks sv_step / sv_evolve / h_make / mps_step_done missing?)")
         names = []
         for i, st in enumerate(steps):
-            a, b = float(T_TICKS[i] * TICK_NS), float(T_TICKS[i + 1] * TICK_NS)
+            a, b = tns[i], tns[i + 1]       # the i-th matrix handed to the stepper / MPO belongs to the i-th interval of the grid
             n_steps += 1
             fam = sc["backend"]
             if st["tq"] is None or st["matrix"] is None:
                 raise MachineryError(f"step without query time / matrix in {pub}")
             if not (a <= st["tq"] <= b):
-                rep.violation(f"step:{fam}:query-outside-own-step", f"step {i} [{a},{b}] of {fam} asks for the interaction matrix at t={st['tq']}", {"scenario": pub, "step": i, "tq": st["tq"]})
+                # the hooks compute this time themselves (it is not the value handed to the callable): drift indicator only,
+                # the verdict is taken from the matrix at the point of use below
+                tq_outside += 1
             bm = compare(em, st["matrix"], sc, spec, res, "masked")
             bf = compare(ef, st["matrix"], sc, spec, res, "full")
             name = "both" if not bm and not bf else "masked" if not bm else "full" if not bf else "other"
@@ -555,8 +561,8 @@ def run(ctx: Ctx) -> None:
                               {"scenario": pub, "step": i, "used": st["matrix"], "tq": st["tq"]})
         if kk is not None:
             ms = model[kk]["steps"]
-            mnames = [ms[i + 1][1] for i in range(3)]
-            mtq = [ms[i + 1][0] * TICK_NS / 2 for i in range(3)]
+            mnames = [ms[i + 1][1] for i in range(len(tns) - 1)]
+            mtq = [ms[i + 1][0] * TICK_NS / 2 for i in range(len(tns) - 1)]
             if names != mnames or [st["tq"] for st in steps] != mtq:
                 drift_steps += 1
                 if drift_steps <= 3:
@@ -564,7 +570,11 @@ def run(ctx: Ctx) -> None:
             ctx.traces_validated += 1
     ctx.coverage["binding"] = {"scenarios": len(cases) - n_invalid, "direct_queries": n_direct, "steps_checked": n_steps, "not_realisable": n_invalid,
                                "direct_query_exactly_at_slm_end_returns": at_end, "step_sequences_differing_from_model": drift_steps,
-                               "runs_raising_undecided": undecided_runs, "xy_scenarios_refused_by_emu_sv": sv_refuses_xy}
+                               "runs_raising_undecided": undecided_runs, "xy_scenarios_refused_by_emu_sv": sv_refuses_xy,
+                               "hook_query_times_outside_own_step": tq_outside,
+                               "irregular_grid_scenarios": sum(1 for c in cases if len(c[0]["T"]) > 4)}
+    if tq_outside:
+        ctx.model_drift(f"{tq_outside} steps whose hook-reported query time lies outside the step")
     if undecided_runs:
         ctx.notes.append(f"runs that raise (their steps are not decided here): {undecided_runs}")
     ctx.log(f"binding: {ctx.coverage['binding']}")
